@@ -202,10 +202,41 @@ func c13Eval(env *core.Env, src string, x any) fx.Res {
 	return fx.Evaluate(env, ex, nil, evalopts.EnvVariable("x", x))
 }
 
+// c13SharedCarrier: the item is read twice through one carrier - `$this` used twice in a projection, and a
+// one-item collection variable used by two conversions and across evaluations. A conversion yields a new value;
+// the item it was given is still the item.
+func c13SharedCarrier(env *core.Env, it c13Item, t1 string) {
+	coll := system.Collection{it.Val}
+	for _, t2 := range c13Targets {
+		sep := c13Eval(env, "%x.convertsTo"+t1+"() and %x.convertsTo"+t2+"()", it.Val)
+		for _, form := range []string{"%x.select($this.convertsTo" + t1 + "() and $this.convertsTo" + t2 + "())", "%x.select(convertsTo" + t1 + "() and convertsTo" + t2 + "())"} {
+			joint := c13Eval(env, form, coll)
+			env.Cover("shared-carrier")
+			if joint.IsPanic() {
+				env.Violatef(fx.PanicSig("C13", joint), "`%s` with %%x = {%s} => %s", form, it.Key, joint.Short())
+				continue
+			}
+			if strings.Contains(form, ".all(") {
+				if sep.IsValue() && joint.Bool3() == "false" {
+					env.Violatef("C13/shared-carrier/this-changed-by-conversion", "`%s` with %%x = {%s[%s]} is false: converting the item changed what $this / %%x denote", form, it.Key, it.Class)
+				}
+				continue
+			}
+			if sep.IsValue() && joint.IsValue() && !fx.Same(sep, joint) {
+				env.Violatef("C13/shared-carrier/this-changed-by-conversion", "`%s` with %%x = {%s[%s]} gives %s, the two conversions asked separately give %s", form, it.Key, it.Class, trunc(joint.Short(), 60), trunc(sep.Short(), 60))
+			}
+		}
+	}
+	if len(coll) != 1 || !sameItem(coll[0], it.Val) {
+		env.Violatef("C13/shared-carrier/variable-collection-modified", "after converting %%x = {%s[%s]} to %s the caller's collection holds %s", it.Key, it.Class, t1, trunc(fx.Render(coll[0]).String(), 80))
+	}
+}
+
 func c13Check(env *core.Env, idx int, target string) {
 	defer env.In("conv", idx, target)()
 	items := c13Items(env)
 	c13CheckItem(env, items[idx], target)
+	c13SharedCarrier(env, items[idx], target)
 }
 
 func c13CheckItem(env *core.Env, it c13Item, target string) {
